@@ -304,21 +304,19 @@ def run_fork_midwrite(seed, dec, cfg):
                 status = 0
             except BaseException as ex:  # noqa
                 try:
-                    os.write(w, ("raised %s" % type(ex).__name__).encode())
+                    from esim.sched import ChildWouldBlock
+                    os.write(w, b"blocked" if isinstance(ex, ChildWouldBlock) else
+                             ("raised %s" % type(ex).__name__).encode())
                 except Exception:  # noqa
                     pass
                 status = 4
             finally:
                 os._exit(status)
         os.close(w)
-        buf = b""
-        while True:
-            chunk = os.read(r, 4096)
-            if not chunk:
-                break
-            buf += chunk
-        os.close(r)
-        _pid, st_ = os.waitpid(pid, 0)
+        from esim.run import read_child
+        buf, st_, hung = read_child(r, pid, 15.0)
+        if hung:
+            buf = b"hung"
         res["said"] = buf.decode("ascii", "replace")
         res["signaled"] = os.WTERMSIG(st_) if os.WIFSIGNALED(st_) else None
         res["exit"] = os.WEXITSTATUS(st_) if os.WIFEXITED(st_) else None
@@ -338,7 +336,12 @@ def run_fork_midwrite(seed, dec, cfg):
             pass
     finally:
         seams.end_run()
-    if res.get("signaled") is not None:
+    if res.get("said") == "hung":
+        rc.fail("fork_child_blocked", "the child forked while another thread was logging hung (killed after 15 s)")
+    elif res.get("said") == "blocked":
+        rc.fail("fork_child_blocked", "the child forked while another thread was logging could not log: its call "
+                "has to wait for something held by a thread that does not exist in the child")
+    elif res.get("signaled") is not None:
         rc.fail("fork_child_blocked", "the child forked while another thread was logging was killed by signal %s "
                 "after 3 s: its own logging call did not return (it said %r)" % (res["signaled"], res.get("said")))
     elif res and res.get("said") != "ok":
